@@ -288,9 +288,13 @@ def contrastive_idxs(ctx):
     lib["jax.numpy.delete"] = lambda a, idx, **kw: Deleted(a.n, idx)
     lib["jax.random.split"] = lambda k, n_=2: KeysV(k, lift(n_))
 
+    class Chosen:
+        def __init__(self, **kw):
+            self.__dict__.update(kw)
+
     def choice(k, choices, shape, replace=True, **kw):
         rec["choice"] = dict(key=k, choices=choices, shape=shape, replace=replace)
-        return ("chosen",)
+        return Chosen(**rec["choice"])
 
     lib["jax.random.choice"] = choice
 
@@ -321,6 +325,35 @@ def contrastive_idxs(ctx):
     lib["jax.vmap"] = vmap_model(False)
     fn = it.repo_function(fnq)
     paths = it.explore(lambda: fn(key, SV(B), SV(nc)))
+    if len(paths) > 1 and all(p_.outcome == "return" for p_ in paths):
+        # value-dependent Python branching on the (static) sizes: the same four clauses, proved on every path under its path condition.
+        # A path may return jr.choice(...) of the other rows, or the other rows themselves (all of them: needs n_contrastive == B - 1).
+        vm = rec.get("vmapped", {})
+        ok_vm = isinstance(vm.get("idxs"), ArangeV) and isinstance(vm.get("keys"), KeysV)
+        ctx.oblige("C17/_get_contrastive_idxs/struct/straight_line", True, [], props, kind="applicability", fn=fnq, note=f"{len(paths)} return paths, each checked under its path condition")
+        pipe, cand, subk, dist, exact = ok_vm, [], ok_vm, True, []
+        for p_ in paths:
+            v = p_.value
+            pc = z3.And(*p_.cond) if p_.cond else z3.BoolVal(True)
+            if isinstance(v, Chosen) and isinstance(v.choices, Deleted) and ok_vm:
+                d = v.choices
+                cand.append(z3.Implies(pc, z3.And(d.n == B, lift(d.idx) == i, vm["idxs"].n == B, vm["keys"].n == B)))
+                subk = subk and v.key == ("key_of_row", vm["keys"], i) and vm["keys"].k is key
+                dist = dist and v.replace is False
+                exact.append(z3.Implies(pc, (lift(v.shape[0]) == nc) if isinstance(v.shape, tuple) and len(v.shape) == 1 else z3.BoolVal(False)))
+            elif isinstance(v, Deleted) and ok_vm:
+                # all other rows, in order: distinct by construction (delete of one position of arange), no randomness needed
+                cand.append(z3.Implies(pc, z3.And(v.n == B, lift(v.idx) == i, vm["idxs"].n == B)))
+                exact.append(z3.Implies(pc, B - 1 == nc))
+            else:
+                pipe = False
+        ctx.oblige("C17/_get_contrastive_idxs/struct/pipeline", bool(pipe), [], props, kind="struct", fn=fnq, note="every path: choices = delete(arange(batch), row), returned whole or sub-sampled by jr.choice; keys = split(key, batch)")
+        if pipe:
+            ctx.oblige("C17/_get_contrastive_idxs/post/candidates_are_the_other_rows", z3.And(*cand), [], props, fn=fnq)
+            ctx.oblige("C17/_get_contrastive_idxs/post/one_subkey_per_row", bool(subk), [], props, kind="struct", fn=fnq)
+            ctx.oblige("C17/_get_contrastive_idxs/post/distinct_without_replacement", bool(dist), [], props, kind="struct", fn=fnq, note="jr.choice(replace=False) on every sampling path: distinct elements of its argument (T3)")
+            ctx.oblige("C17/_get_contrastive_idxs/post/exactly_n_contrastive", z3.And(*exact), [], props, fn=fnq)
+        return
     pa = single(paths, ctx, "C17/_get_contrastive_idxs/struct/straight_line", props, fnq)
     if pa is None:
         return
